@@ -31,6 +31,42 @@ type hrun struct {
 	Reach    []string // labels that must be reached on some feasible path
 	MaxSteps int64
 	Bound    string // human-readable bound of this harness
+	NoNative bool   // uses verifrt.StubFunc: cannot run natively
+	Sched    bool   // schedule-dependent: a native run cannot force the interleaving
+}
+
+// engineReplay re-executes one counterexample deterministically in the
+// executor with the model's concrete values and the recorded choices
+// (schedule included); it must hit the same assertion.
+func engineReplay(P *Program, r hrun, v *Violation) (bool, string) {
+	fn, err := P.findFunc(r.Pkg, r.Fn)
+	if err != nil {
+		return false, err.Error()
+	}
+	cfg := defaultConfig()
+	cfg.Harness = r.Fn
+	cfg.PkgPath = r.Pkg
+	cfg.Workers = 1
+	cfg.FixedModel = v.Model
+	if cfg.FixedModel == nil {
+		cfg.FixedModel = map[string]uint64{}
+	}
+	cfg.FixedChoices = v.Choices
+	if r.MaxSteps > 0 {
+		cfg.MaxSteps = r.MaxSteps
+	}
+	e := newExplorer(P, fn, cfg)
+	e.Run()
+	for _, got := range e.violations {
+		if got.Label == v.Label {
+			return true, fmt.Sprintf("deterministic re-execution in the executor (concrete inputs from the model, recorded choices/schedule) hit %q again", v.Label)
+		}
+	}
+	var labels []string
+	for _, got := range e.violations {
+		labels = append(labels, got.Label)
+	}
+	return false, fmt.Sprintf("re-execution did not hit %q (hit %q; inconclusive notes %q)", v.Label, labels, e.inconclusive)
 }
 
 type propDef struct {
@@ -159,7 +195,18 @@ func cmdCheck(args []string) int {
 		}
 		for k := range e.violations {
 			v := &e.violations[k]
-			ok, path, detail := confirmViolation(v, id, r.Pkg, nViol)
+			var ok bool
+			var path, detail string
+			if r.NoNative {
+				path = writeReplayFile(v, id, r.Pkg, nViol)
+			} else {
+				ok, path, detail = confirmViolation(v, id, r.Pkg, nViol)
+			}
+			if !ok && (r.NoNative || r.Sched) {
+				var d2 string
+				ok, d2 = engineReplay(P, r, v)
+				detail = strings.TrimSpace(detail + "; " + d2)
+			}
 			nViol++
 			if ok {
 				fmt.Printf("VIOLATION property=%s replay=%s\n", id, path)
@@ -179,7 +226,9 @@ func cmdCheck(args []string) int {
 			ev.Known = append(ev.Known, what)
 		}
 		// validate a few witness paths natively (engine vs real build)
-		ev.validateWitnesses(e, r, id)
+		if !r.NoNative {
+			ev.validateWitnesses(e, r, id)
+		}
 	}
 	if atomic.LoadInt64(&gstats.CrossDiffs) > 0 {
 		fmt.Println("INCONCLUSIVE: z3 and cvc5 disagreed on a query")
